@@ -478,8 +478,9 @@ RetRec(s) ==
                  @@ (IF IsStr(f.a[2]) THEN [str2 |-> <<f.a[2][4] + f.x.s2, f.a[2][4], 1>>] ELSE <<>>)
        [] f.fn = "start" /\ f.r < 0 /\ ~StrictFailedStart -> [e |-> "ret", t |-> now, mon |-> <<>>, r |-> f.r]
        [] f.fn = "start" /\ f.r = 1 /\ f.x = <<"fork">> ->
-            \* in the forked child: start returned 0; pid and wait are rejected there (only destroy is allowed)
-            base @@ [r |-> 1, fchild |-> <<0, EINVAL, EINVAL, 1>>]
+            \* in the forked child: start returned 0; pid, wait and another start are rejected there (only destroy is allowed);
+            \* it holds one descriptor above 2 (the exit handle) and blocks no signal
+            base @@ [r |-> 1, fchild |-> <<0, EINVAL, EINVAL, 1, 0, EINVAL>>]
        [] f.alt # {} -> base @@ [r |-> [any |-> SetToSeq({f.r} \cup f.alt)], ralt |-> 1]
        [] OTHER -> base @@ [r |-> f.r]
 
